@@ -166,6 +166,18 @@ fn resolve_mates(records: &mut [Record]) -> io::Result<()> {
         .map(|(i, record)| record.mate_distance.map(|len| i + len + 1))
         .collect();
 
+    // The distance to the next fragment is read from the slice and must stay inside it.
+    if mate_indices
+        .iter()
+        .flatten()
+        .any(|&mate_index| mate_index >= records.len())
+    {
+        return Err(io::Error::new(
+            io::ErrorKind::InvalidData,
+            "invalid mate distance",
+        ));
+    }
+
     for i in 0..records.len() {
         let record = &mut records[i];
 
